@@ -16,6 +16,11 @@ W  combs (spec/Gen_ExpanderWidth.tla): WIDTH = how many constructs stand side by
    "too deep" does not depend on the width, and prints texts + predictions; the real code must restore the
    path and must not report a comb as too deeply nested when it admits the single tooth (repeated 3 times
    without start_page).
+N  name forms (spec/Gen_ExpanderNames.tla): HOW THE CALLED NAME IS WRITTEN ({{:Page}}, {{:Ns:Title}}, {{Ns:Title}},
+   {{Template:T}}, first-letter / prefix case, underscores, blanks or a newline around the name, "Main:", a missing
+   page and a redirect for each kind) x where the call stands (alone, twice side by side, in an argument, in #if,
+   in a template body, mixed) x 16 option combinations; TLC prints the page store to install, the page as written
+   and the twin's prediction; same verdicts as G (path restored after every call; 300 repetitions on one page).
 V  the push/pop events of the real run (recorded with a list subclass installed as
    ctx.expand_stack) are compared with the twin's event log (DRIFT only: labels are
    internal).
@@ -60,7 +65,11 @@ def replay_chunk(groups):
     with Scratch("c16-") as d:
         for gi, idxs in enumerate(groups):
             c0 = cases[idxs[0]]
-            ctx = ex.make_ctx(d, c0["lib"], c0["need"], prebody, f"g{gi}", enwikt=c0.get("enw", True))
+            if "store" in c0:      # name forms: the page store is printed by TLC (Gen_ExpanderNames)
+                ctx = ex.make_ctx(d, {}, [], prebody, f"g{gi}", enwikt=c0.get("enw", True))
+                install_store(ctx, c0["store"])
+            else:
+                ctx = ex.make_ctx(d, c0["lib"], c0["need"], prebody, f"g{gi}", enwikt=c0.get("enw", True))
             try:
                 by_page = {}
                 for idx in idxs:
@@ -101,6 +110,28 @@ def replay_chunk(groups):
     return res
 
 
+def install_store(ctx, store):
+    for p in store:
+        if p["redirect"]:
+            ctx.add_page(p["title"], p["ns"], redirect_to=p["redirect"])
+        else:
+            ctx.add_page(p["title"], p["ns"], body=tr.render_body(p["body"]), need_pre_expand=p["need"])
+    ctx.db_conn.commit()
+
+
+def name_groups(cases, first, per=4):
+    """Groups of the name-form cases (one context per group): `per` pages with all their option combinations."""
+    by_page = {}
+    for i, c in enumerate(cases):
+        by_page.setdefault(common.json_key(c["page"]), []).append(first + i)
+    pages = list(by_page.values())
+    return [sum(pages[i:i + per], []) for i in range(0, len(pages), per)]
+
+
+def forms_of(c):
+    return ", ".join("{{%s}} (%s)" % (f["w"].replace("\n", "\\n"), "no such page" if not f["pg"] else "page " + f["pg"]) for f in c.get("forms", []))
+
+
 def flat_items(c):
     for it in c:
         yield it
@@ -131,14 +162,14 @@ COMB_REPS = 3
 class CombTLC(threading.Thread):
     """Runs the comb generator beside the rest of the check."""
 
-    def __init__(self, cfg, check=True):
+    def __init__(self, cfg, check=True, module="Gen_ExpanderWidth"):
         super().__init__(daemon=True)
-        self.cfg, self.check = cfg, check
+        self.cfg, self.check, self.module = cfg, check, module
         self.res = self.err = None
 
     def run(self):
         try:
-            self.res = tlc("Gen_ExpanderWidth", self.cfg, workers=1, timeout=3000, check=self.check)
+            self.res = tlc(self.module, self.cfg, workers=1, timeout=3000, check=self.check)
         except BaseException as e:  # noqa: BLE001  (re-raised by the main thread)
             self.err = e
 
@@ -307,10 +338,21 @@ def run(tier: str) -> int:
     comb_gen.start()
     comb_demo = CombTLC("Demo_ExpanderWidth_accumulate.cfg", check=False)
     comb_demo.start()
+    name_gen = CombTLC(f"Gen_ExpanderNames_{tier if thorough else 'quick'}.cfg", module="Gen_ExpanderNames")
+    name_gen.start()
     uni = "C16" if thorough else "C16Q"
     r = tlc("Gen_Expander", f"Gen_Expander_{uni}.cfg", workers=1, timeout=3000)
     o.add_tlc(f"Gen_Expander[{uni}] laws+cases", r)
-    cases = r.cases
+    cases = list(r.cases)
+    # N: name forms (the same record shape + the page store); replayed and judged with the cases of the main universe
+    rn = name_gen.result()
+    o.add_tlc(f"Gen_ExpanderNames[{tier if thorough else 'quick'}] laws+cases", rn)
+    ncases = rn.cases
+    if len(ncases) < 300 or not any(f["w"].startswith(":") for c in ncases for f in c["forms"]) \
+            or not any(e.startswith("+tmpl::") for c in ncases for e in c["ev"]):
+        raise common.TLCError("name-form universe is vacuous")
+    nfirst = len(cases)
+    cases += ncases
     d = tlc("Gen_Expander", "Demo_Expander_leak.cfg", workers=1, check=False)
     o.extra["demo_leak_violates_StackRestored"] = bool(d.invariant_violated)
     if not d.invariant_violated:
@@ -319,7 +361,7 @@ def run(tier: str) -> int:
     _G["prebody"] = PREBODY
     _G["cases"] = cases
     _G["reps"] = 300
-    results = pmap(replay_chunk, ex.group_cases(cases), chunk=1)
+    results = pmap(replay_chunk, ex.group_cases(cases[:nfirst]) + name_groups(ncases, nfirst), chunk=1)
     known = o.known
     for ob in results:
         c = cases[ob["idx"]]
@@ -328,13 +370,16 @@ def run(tier: str) -> int:
             case = {"lib": {k: tr.render_body(v) for k, v in c["lib"].items()}, "page": tr.render(c["page"]),
                     "repeated": ob["n"], "options_cycled": ob["opts"], "stack_after": ob["after"], "exception": ob["exc"],
                     "deep_errors": ob["deep"]}
+            nm = f" [name forms: {forms_of(c)}]" if "forms" in c else ""
+            if "forms" in c:
+                case["name_forms"] = c["forms"]
             if ob["exc"]:
-                o.violation(case, f"exception during repeated calls: {ob['exc']}", cls="rep-exception")
+                o.violation(case, f"exception during repeated calls: {ob['exc']}" + nm, cls="rep-exception")
             elif ob["after"] != ["Pg"]:
-                devs = [dv for dv in known] if known else []
-                o.classify(case, f"after {ob['n']} calls on one page expand_stack is {ob['after'][:6]}... instead of ['Pg']", devs, cls="rep-stack")
+                devs = [dv for dv in known] if known and "forms" not in c else []
+                o.classify(case, f"after {ob['n']} calls on one page expand_stack is {ob['after'][:6]}... instead of ['Pg']" + nm, devs, cls="rep-stack")
             elif ob["deep"] and not ob["predicted_depth"]:
-                o.violation(case, "a flat page was reported as too deeply nested after repeated calls", cls="rep-depth")
+                o.violation(case, "a flat page was reported as too deeply nested after repeated calls" + nm, cls="rep-depth")
             continue
         o.evaluations += 1
         o.traces += 1
@@ -342,15 +387,21 @@ def run(tier: str) -> int:
             o.shape((common.json_key(c["page"]), common.json_key(c["o"])))
         case = {"lib": {k: tr.render_body(v) for k, v in c["lib"].items()}, "need": c["need"], "page": ob["src"], "options": c["o"],
                 "stack_before": ob["before"], "stack_after": ob["after"], "exception": ob["exc"], "out": ob["out"]}
+        nm = ""
+        if "forms" in c:
+            nm = (f" [name forms: {forms_of(c)}; the twin pushes one path entry per call whatever the form of the name and pops it when the call "
+                  f"is done: predicted path after the call {[l['n'] for l in c['stack']]}, predicted output {tr.text(c['out'])!r}]")
+            case.update({"origin": "name-forms", "name_forms": c["forms"], "shape": c["shape"],
+                         "store": {p["title"]: ("-> " + p["redirect"] if p["redirect"] else tr.render_body(p["body"])) for p in c["store"]}})
         if ob["exc"]:
-            o.violation(case, f"expand() raised {ob['exc']}", cls="exception")
+            o.violation(case, f"expand() raised {ob['exc']}" + nm, cls="exception")
             continue
         if ob["after"] != ob["before"]:
             asis = [l for l in c["asis_stack"]]
             if stack_labels(ob["after"]) == [[l["t"], l["n"]] for l in asis] and c["asis_stack"] != c["stack"]:
                 o.classify(case, "expand_stack not restored", sorted(known), cls="stack")
             else:
-                o.violation(case, f"expand_stack after the call is {ob['after']} but was {ob['before']} before it", cls="stack")
+                o.violation(case, f"expand_stack after the call is {ob['after']} but was {ob['before']} before it" + nm, cls="stack")
         if not ob["lists_emptied"]:
             o.violation(case, "start_page did not empty the message lists", cls="lists")
         if ob["badmsgs"]:
@@ -361,7 +412,11 @@ def run(tier: str) -> int:
         elif c["ev"] and ob["events"] != c["ev"]:
             o.note_drift({"page": ob["src"], "options": c["o"], "model_events": c["ev"][:12], "real_events": ob["events"][:12]})
     o.exhaustive = True
-    mid = cases[len(cases) // 2]
+    o.extra["name_forms"] = {"cases": len(ncases), "pages": len({common.json_key(c["page"]) for c in ncases}),
+                             "forms": sorted({f["w"] for c in ncases for f in c["forms"]}), "shapes": sorted({c["shape"] for c in ncases})}
+    o.rule += (" || name forms (Gen_ExpanderNames): one case per (page shape x form(s) of the called name, option-combination); the page store "
+               "is fixed and printed with the case")
+    mid = cases[nfirst // 2]
     o.sample({"page": tr.render(mid["page"]), "options": mid["o"], "model_events": mid["ev"][:10], "model_out": tr.text(mid["out"])})
     # W: combs (width of one text x kind x depth x place)
     combs_extend(o, tier, comb_gen, comb_demo)
